@@ -424,11 +424,15 @@ slab_g (int field, int w)
   char rp[48], sig[160];
   const char *tag = w ? "$gy$" : "$y$";
   int m = w ? M_GOST : M_YESCRYPT;
-  const char *fname = field == 0 ? "yescrypt-r" : field == 1 ? "yescrypt-p" : "yescrypt-t";
+  const char *fname = field == 0 ? "yescrypt-r" : field == 1 ? "yescrypt-p" : field == 2 ? "yescrypt-t" : "yescrypt-t-with-prehash";
   snprintf (rp, sizeof rp, "g:%d:%d", field, w);
-  for (int v = 1; v <= VMAX; v++)
+  int vmax = field == 3 ? 6 : VMAX;
+  for (int v = 1; v <= vmax; v++)
     {
-      if (field == 0)
+      if (field == 3)
+        /* t at a size that takes yescrypt's pre-hash path (N/p >= 0x100 and N*r/p >= 0x20000): 16 MiB, t = 0..5 */
+        vh_ysetting (st[v], sizeof st[v], tag, 12, 32, 1, (uint32_t) v - 1, "saltSALT");
+      else if (field == 0)
         vh_ysetting (st[v], sizeof st[v], tag, 2, (uint32_t) v, 1, 0, "saltSALT");
       else if (field == 1)
         vh_ysetting (st[v], sizeof st[v], tag, 10, 1, (uint32_t) v, 0, "saltSALT");
@@ -445,8 +449,8 @@ slab_g (int field, int w)
         }
       snprintf (hp[v], sizeof hp[v], "%s", h + hash_off (method_of (h), h));
     }
-  for (int a = 1; a <= VMAX; a++)
-    for (int b = a + 1; b <= VMAX; b++)
+  for (int a = 1; a <= vmax; a++)
+    for (int b = a + 1; b <= vmax; b++)
       if (!strcmp (hp[a], hp[b]))
         {
           snprintf (sig, sizeof sig, "salt-or-cost-not-in-hash/%s/method=%s", fname, vh_methods[m].name);
@@ -492,7 +496,7 @@ main (int argc, char **argv)
   for (int m = 0; m < M_COUNT; m++)
     if (vh_mine (idx++))
       slab_c (m);
-  for (int field = 0; field < 3; field++)
+  for (int field = 0; field < 4; field++)
     for (int w = 0; w < 2; w++)
       if (vh_mine (idx++))
         slab_g (field, w);
